@@ -659,6 +659,15 @@ func (p *Parser) skipResource(sec section) error {
 	return nil
 }
 
+// checkBodyLen reports whether the resource body announced by the most recently
+// parsed resource header lies within the message.
+func (p *Parser) checkBodyLen() error {
+	if p.off+int(p.resHeaderLength) > len(p.msg) {
+		return errResourceLen
+	}
+	return nil
+}
+
 // Question parses a single Question.
 func (p *Parser) Question() (Question, error) {
 	if err := p.checkAdvance(sectionQuestions); err != nil {
@@ -901,6 +910,9 @@ func (p *Parser) CNAMEResource() (CNAMEResource, error) {
 	if !p.resHeaderValid || p.resHeaderType != TypeCNAME {
 		return CNAMEResource{}, ErrNotStarted
 	}
+	if err := p.checkBodyLen(); err != nil {
+		return CNAMEResource{}, err
+	}
 	r, err := unpackCNAMEResource(p.msg, p.off)
 	if err != nil {
 		return CNAMEResource{}, err
@@ -918,6 +930,9 @@ func (p *Parser) CNAMEResource() (CNAMEResource, error) {
 func (p *Parser) MXResource() (MXResource, error) {
 	if !p.resHeaderValid || p.resHeaderType != TypeMX {
 		return MXResource{}, ErrNotStarted
+	}
+	if err := p.checkBodyLen(); err != nil {
+		return MXResource{}, err
 	}
 	r, err := unpackMXResource(p.msg, p.off)
 	if err != nil {
@@ -937,6 +952,9 @@ func (p *Parser) NSResource() (NSResource, error) {
 	if !p.resHeaderValid || p.resHeaderType != TypeNS {
 		return NSResource{}, ErrNotStarted
 	}
+	if err := p.checkBodyLen(); err != nil {
+		return NSResource{}, err
+	}
 	r, err := unpackNSResource(p.msg, p.off)
 	if err != nil {
 		return NSResource{}, err
@@ -954,6 +972,9 @@ func (p *Parser) NSResource() (NSResource, error) {
 func (p *Parser) PTRResource() (PTRResource, error) {
 	if !p.resHeaderValid || p.resHeaderType != TypePTR {
 		return PTRResource{}, ErrNotStarted
+	}
+	if err := p.checkBodyLen(); err != nil {
+		return PTRResource{}, err
 	}
 	r, err := unpackPTRResource(p.msg, p.off)
 	if err != nil {
@@ -973,6 +994,9 @@ func (p *Parser) SOAResource() (SOAResource, error) {
 	if !p.resHeaderValid || p.resHeaderType != TypeSOA {
 		return SOAResource{}, ErrNotStarted
 	}
+	if err := p.checkBodyLen(); err != nil {
+		return SOAResource{}, err
+	}
 	r, err := unpackSOAResource(p.msg, p.off)
 	if err != nil {
 		return SOAResource{}, err
@@ -990,6 +1014,9 @@ func (p *Parser) SOAResource() (SOAResource, error) {
 func (p *Parser) TXTResource() (TXTResource, error) {
 	if !p.resHeaderValid || p.resHeaderType != TypeTXT {
 		return TXTResource{}, ErrNotStarted
+	}
+	if err := p.checkBodyLen(); err != nil {
+		return TXTResource{}, err
 	}
 	r, err := unpackTXTResource(p.msg, p.off, p.resHeaderLength)
 	if err != nil {
@@ -1009,6 +1036,9 @@ func (p *Parser) SRVResource() (SRVResource, error) {
 	if !p.resHeaderValid || p.resHeaderType != TypeSRV {
 		return SRVResource{}, ErrNotStarted
 	}
+	if err := p.checkBodyLen(); err != nil {
+		return SRVResource{}, err
+	}
 	r, err := unpackSRVResource(p.msg, p.off)
 	if err != nil {
 		return SRVResource{}, err
@@ -1026,6 +1056,9 @@ func (p *Parser) SRVResource() (SRVResource, error) {
 func (p *Parser) AResource() (AResource, error) {
 	if !p.resHeaderValid || p.resHeaderType != TypeA {
 		return AResource{}, ErrNotStarted
+	}
+	if err := p.checkBodyLen(); err != nil {
+		return AResource{}, err
 	}
 	r, err := unpackAResource(p.msg, p.off)
 	if err != nil {
@@ -1045,6 +1078,9 @@ func (p *Parser) AAAAResource() (AAAAResource, error) {
 	if !p.resHeaderValid || p.resHeaderType != TypeAAAA {
 		return AAAAResource{}, ErrNotStarted
 	}
+	if err := p.checkBodyLen(); err != nil {
+		return AAAAResource{}, err
+	}
 	r, err := unpackAAAAResource(p.msg, p.off)
 	if err != nil {
 		return AAAAResource{}, err
@@ -1063,6 +1099,9 @@ func (p *Parser) OPTResource() (OPTResource, error) {
 	if !p.resHeaderValid || p.resHeaderType != TypeOPT {
 		return OPTResource{}, ErrNotStarted
 	}
+	if err := p.checkBodyLen(); err != nil {
+		return OPTResource{}, err
+	}
 	r, err := unpackOPTResource(p.msg, p.off, p.resHeaderLength)
 	if err != nil {
 		return OPTResource{}, err
@@ -1080,6 +1119,9 @@ func (p *Parser) OPTResource() (OPTResource, error) {
 func (p *Parser) UnknownResource() (UnknownResource, error) {
 	if !p.resHeaderValid {
 		return UnknownResource{}, ErrNotStarted
+	}
+	if err := p.checkBodyLen(); err != nil {
+		return UnknownResource{}, err
 	}
 	r, err := unpackUnknownResource(p.resHeaderType, p.msg, p.off, p.resHeaderLength)
 	if err != nil {
@@ -2194,6 +2236,9 @@ func unpackResourceBody(msg []byte, off int, hdr ResourceHeader) (ResourceBody, 
 		err  error
 		name string
 	)
+	if off+int(hdr.Length) > len(msg) {
+		return nil, off, errResourceLen
+	}
 	switch hdr.Type {
 	case TypeA:
 		var rb AResource
